@@ -192,7 +192,7 @@ PROPS.update({
             "level_text": ("Partial proof + exact correspondence + decision on the real code. "
                            "Models: `traverseSlot` (Model/Traverse.lean: the classification loop of traverse.go over the earlier words, the fix-up of the words handed to the parser, descent into sub-commands, the final case distinction) and `Pflag.parse` (Spec/Pflag.lean: the program's own parser - parseArgs / parseLongArg / parseShortArg of carapace-pflag, POSIX mode). "
                            "Proved: stage 1 - `C01_short_agrees` (for every POSIX flag set in which no flag uses `=` as its shorthand and every shorthand chain the parser does not reject, carapace's LookupArg + Consumes expects the next word to be the value of flag f exactly when the parser takes it as f's value; the hypothesis was forced by the proof and has a decided counterexample), `C01_long_attached`; "
-                           "stages 2-3 for a program with a single command - `C01_positional_lands` (if the model completes positional argument k for a word not starting with `-`, then any word typed there that does not look like a flag is accepted by the parser, given that it accepts the line so far, and becomes exactly positional argument k) `C01_dash_lands` (likewise for argument k after `--`, for any word; hypothesis: no flag is waiting for its value) and, for interspersed commands, `C01_flag_value_lands` (if the model completes the value of flag f, any word of f's type typed there is accepted and is assigned to f as the last assignment of the line: `long_pending`, `short_pending`, the loop invariant `loop_pend` - a flag that waits for its value is the last word - and `parseArgs_append_inter`), resting on `parseArgs_snoc` (the parser's result on `ws ++ [w]` from its result on `ws`, by induction over the line) and `loop_single`. Not proved: non-interspersed commands for the flag-value slot, attached values (`--flag=<TAB>`), and programs with sub-commands (the listed descent findings live there). "
+                           "stages 2-3 for any command of any program as long as no earlier word names one of its sub-commands (hypotheses `Stay`, `NoChild`; a single-command program is the special case `Single.stay`) - `C01_positional_lands` (if the model completes positional argument k for a word not starting with `-`, then any word typed there that does not look like a flag is accepted by the parser, given that it accepts the line so far, and becomes exactly positional argument k) `C01_dash_lands` (likewise for argument k after `--`, for any word; hypothesis: no flag is waiting for its value) and, for interspersed commands, `C01_flag_value_lands` (if the model completes the value of flag f, any word of f's type typed there is accepted and is assigned to f as the last assignment of the line: `long_pending`, `short_pending`, the loop invariant `loop_pend` - a flag that waits for its value is the last word - and `parseArgs_append_inter`), resting on `parseArgs_snoc` (the parser's result on `ws ++ [w]` from its result on `ws`, by induction over the line) and `loop_single`. Not proved: non-interspersed commands for the flag-value slot, attached values (`--flag=<TAB>`), and lines that descend into a sub-command (the listed descent findings live there; the dispatch itself is cobra's `Find`, which is executed, not modelled). "
                            "Ties: `Pflag.parse` = the real parser on every generated line (op `pflagparse`); `traverseSlot` = the slot the real traverse serves, observed through per-slot marker values, on every generated line incl. sub-command descent, parse errors, DisableFlagParsing, non-interspersed commands (op `parse`); LookupArg / Consumes model = internal/pflagfork (op `lookuparg`). "
                            "Decided on the real code: every offered candidate carries a marker of the slot that produced it; it is appended to the line and the line is executed by the program's own cobra/pflag on a fresh tree: it must land in that slot (command, positional index, index after the dash, flag)."),
             "level_note": PARSE_NOTE},
@@ -231,7 +231,7 @@ PROPS.update({
             "rule": ENTRY_RULE, "assumptions": ["the observable is the one the property names: exit status, stderr and decodability of stdout of a child process", "a hang is no answer within 20 s (the machine may be loaded by 16 parallel children)"],
             "claimed": True, "engine": "total",
             "technique": "machine-checked proof in Lean 4 (explicit-panic models of the slice arithmetic, kernel-decided site inventory regenerated from the source) + differential correspondence; the unmodelled remainder of the entry path is searched by generated child processes (partial)",
-            "level_text": ("Partial: proof for the modelled functions, search on the real code for the rest (the runtime behaviour - panics inside unmodelled code, hangs - cannot be exhibited by the model). Proved for every input, in a model where Go's slice and index expressions are operations that can fail (`Except Panic`): `C18_compLine_total` (bash.CompLine never panics whatever COMP_LINE / COMP_POINT hold - true only since fix 3cb8b85) with `C18_compLine_prefix`, `C18_trimmed_total` / `C18_trimmed_source` (TrimmedDescription's `[:maxLength-3]` is in range for the limit read from the source, and the function equals the total one used by the formatter theorems), `C18_ndMatch_total`, `C18_ndReplace_total` (`SplitN(s, \"/\", 2)[1]` is reached only when the string contains `/`), `C18_expandHome_total`, `C18_abs_total`; a decided witness that the failure is expressible (`C18_trimmed_small_limit_panics`); over the traverse model (single command), the two slices of traverse.go whose bounds depend on the typed line: `C18_toParse_nonempty` (`toParse[:len-1]` is reached only when a flag waits for its value, and then that flag word is the last word - loop invariant `loop_pend`) and `C18_series_prefix_contains_shorthand` / `C18_series_cut_exists` (`Prefix[LastIndex(Prefix, Shorthand):]`: what lookupPosixShorthandArg returns carries the letter in its prefix). "
+            "level_text": ("Partial: proof for the modelled functions, search on the real code for the rest (the runtime behaviour - panics inside unmodelled code, hangs - cannot be exhibited by the model). Proved for every input, in a model where Go's slice and index expressions are operations that can fail (`Except Panic`): `C18_compLine_total` (bash.CompLine never panics whatever COMP_LINE / COMP_POINT hold - true only since fix 3cb8b85) with `C18_compLine_prefix`, `C18_trimmed_total` / `C18_trimmed_source` (TrimmedDescription's `[:maxLength-3]` is in range for the limit read from the source, and the function equals the total one used by the formatter theorems), `C18_ndMatch_total`, `C18_ndReplace_total` (`SplitN(s, \"/\", 2)[1]` is reached only when the string contains `/`), `C18_expandHome_total`, `C18_abs_total`; a decided witness that the failure is expressible (`C18_trimmed_small_limit_panics`); over the traverse model (any command, lines that stay within it), the two slices of traverse.go whose bounds depend on the typed line: `C18_toParse_nonempty` (`toParse[:len-1]` is reached only when a flag waits for its value, and then that flag word is the last word - loop invariant `loop_pend`) and `C18_series_prefix_contains_shorthand` / `C18_series_cut_exists` (`Prefix[LastIndex(Prefix, Shorthand):]`: what lookupPosixShorthandArg returns carries the letter in its prefix). "
                            "`C18_sites_covered`: the inventory of every index / slice / panic / Must* expression of 38 files on the entry path, each with the conditions guarding it, regenerated from /repo on every run, equals the inventory the runs below were made for (kernel-decided). The models are compared exactly with the real functions (ops compline, trimdesc, abs). "
                            "Decided on the real code: thousands of child processes per run with generated argv / environment / ancestor shell / command tree; oracle: exit status 0, no goroutine dump, an answer within the limit, stdout decodable by the requested shell's consumer-side decoder, nothing but white space for unknown shells."),
             "level_note": ENTRY_NOTE},
